@@ -3,6 +3,7 @@ CONSTANTS
   Kinds = {"send"}
   UseCancel = FALSE
   ApiModes = {FALSE}
+  UseSecond = FALSE
   TestRng = FALSE
 SPECIFICATION Spec
 INVARIANT Inv_AtRestStrict
